@@ -39,7 +39,7 @@ def build_cell(kind, u, p):
     local = payload[:b_spec]
     npages = sp[2]
     cell = head + local + (struct.pack(">I", 10) if has_ov else b"")
-    start = 100
+    start = 12      # (a cell with the largest local payload, u-35 bytes, must still fit on the page)
     page = bytearray(u)
     if start + len(cell) > u:
         return None
@@ -111,7 +111,7 @@ def wide_header_cell(kind, u, ncols):
     pre = struct.pack(">I", 2) if kind == "indexinterior" else b""
     head = pre + put_varint(p) + (put_varint(1) if kind == "table" else b"")
     cell = head + payload[:b_loc] + (struct.pack(">I", 10) if b_loc < p else b"")
-    start = 100
+    start = 12      # (a cell with the largest local payload, u-35 bytes, must still fit on the page)
     if start + len(cell) > u:
         return None
     page = bytearray(u)
